@@ -123,6 +123,9 @@ class DelayEval(object):
                 f = MinOf([Lin({self.P: 1})])
                 return (f, f)
             if isinstance(e.op, ast.Pow):
+                if isinstance(e.left, ast.Constant) and e.left.value == 2 and type(e.left.value) is float:
+                    raise Unsupported('float-overflow: 2.0 ** retries raises OverflowError once retries reaches 1024, '
+                                      'which ends persist() by itself; use the integer power 2**retries')
                 if isinstance(e.left, ast.Constant) and e.left.value == 2:
                     self.saw_pow.append((n, e.right))
                     self.exp_var_check(n, e.right)
@@ -469,6 +472,9 @@ def check(run):
     R.ob('C16.noescape', 'escape set of WebsocketSession.run', not esc,
          'exceptions %s can escape the connection generator and terminate persist()' % esc,
          func='session.WebsocketSession.run', node=runctx.func.node, construct='escapes: ' + ', '.join(esc))
+    # the escape set above rests on the error constructors not failing themselves
+    from .common import message_templates
+    message_templates(R, 'C16.noescape')
 
 
 def _is_ready_test(e, loopvar):
